@@ -68,25 +68,25 @@ theorem cnt_pushSpec_le (K : Nat) (dedup : Bool) (q : List (SubP S)) (x : SubP S
         rw [cnt_cons, cnt_cons, this]; omega
       · rw [cnt_cons, cnt_cons]; omega
 
-theorem enqOne_fringe (dedup : Bool) (ub : Int) (st : SeqSt S) (c0 : SubP S) :
-    (enqOne dedup ub st c0).fringe = st.fringe ∨
-    (enqOne dedup ub st c0).fringe = pushSpec dedup st.fringe { c0 with ub := min ub c0.ub } := by
+theorem enqOne_fringe (dedup : Bool) (st : SeqSt S) (c0 : SubP S) :
+    (enqOne dedup st c0).fringe = st.fringe ∨
+    (enqOne dedup st c0).fringe = pushSpec dedup st.fringe c0 := by
   unfold enqOne
   simp only
   split
   · split <;> exact Or.inr rfl
   · exact Or.inl rfl
 
-theorem cnt_enqueue_of_ne (K : Nat) (dedup : Bool) (ub : Int) (cs : List (SubP S)) (e : Nat)
+theorem cnt_enqueue_of_ne (K : Nat) (dedup : Bool) (cs : List (SubP S)) (e : Nat)
     (h : ∀ c ∈ cs, cdepth K c ≠ e) (st : SeqSt S) :
-    cnt K (st.enqueue dedup ub cs).fringe e = cnt K st.fringe e := by
+    cnt K (st.enqueue dedup cs).fringe e = cnt K st.fringe e := by
   rw [enqueue_eq_foldl]
   induction cs generalizing st with
   | nil => rfl
   | cons c0 cs ih =>
     simp only [List.foldl_cons]
     rw [ih (fun c hc => h c (List.mem_cons_of_mem _ hc))]
-    rcases enqOne_fringe dedup ub st c0 with e1 | e1
+    rcases enqOne_fringe dedup st c0 with e1 | e1
     · rw [e1]
     · rw [e1]
       exact cnt_pushSpec_of_ne K dedup st.fringe _ e (h c0 List.mem_cons_self)
@@ -119,7 +119,7 @@ theorem process_cnt_le (K : Nat) (dedup : Bool) (st : SeqSt S) (N : SubP S) (me 
             have f2 := (updateBest_fringe (st.updateBest r) x).1
             split
             · rw [f2, f1]; exact Nat.le_refl _
-            · rw [cnt_enqueue_of_ne K dedup N.ub x.cutset e (h x rfl), f2, f1]
+            · rw [cnt_enqueue_of_ne K dedup x.cutset e (h x rfl), f2, f1]
               exact Nat.le_refl _
 
 /-! ## the loop as a relation -/
